@@ -156,6 +156,13 @@ def exps_small():
     return [0, 1, 2, 3, -1, -2, 5, 0x10001, -0x10001]
 
 
+def frobenius_ok(p, n):
+    """False where the library's Frobenius of level n is a recorded finding (C10-frb-p-2-mod-3, C10-fp54-frb):
+    there fpN_frb itself is still driven (and keyed), but not the operations that are built on it
+    (conversion to / test of the cyclotomic subgroup and everything fed by them, squares and roots)"""
+    return not (n == 54 or (p % 3 == 2 and n in (4, 6, 8, 12, 16, 24, 48)))
+
+
 def gen_level(G, n, tier, scale=1.0, heavy=True):
     """all case lines of one level of one tower.  scale: fraction of the nominal counts;
     heavy: include the exponentiation-bound checks (exp, full Frobenius, roots)"""
@@ -167,8 +174,12 @@ def gen_level(G, n, tier, scale=1.0, heavy=True):
     def cnt(x, lo=1):
         return max(lo, int(round(x * scale)))
 
+    FRB_BOUND = ("conv_cyc", "test_cyc", "inv_cyc", "sqr_cyc", "sqr_cyc_basic", "sqr_cyc_lazyr", "sqr_pck", "sqr_pck_basic",
+                 "sqr_pck_lazyr", "back_cyc", "back_cyc_sim", "exp_cyc", "exp_cyc_sim", "exp_cyc_sps", "srt", "is_sqr")
+    frb_ok = frobenius_ok(p, n)
+
     def has(f):
-        return f in ops
+        return f in ops and (frb_ok or f not in FRB_BOUND)
 
     def op(f):
         return "fp%d_%s" % (n, f)
